@@ -34,13 +34,41 @@ def run(rep, tier, seed, replay):
                        "python reference oracle gen/c02.py (Ref/oracle): flat-stream specification evaluated on implementation outputs"]))
     model = ltv.build_model("C02")
     impl = ltv.build_harness("c02", ["c02.cc"])
+    # --- constants of the side conditions, probed from the COMPILED implementation (ROBUSTNESS rule 3)
+    pr, perr, prc = ltv.run_lines(impl, [], args=["--params"], timeout=120)
+    probed = dict(t.split("=", 1) for t in pr[0].split()[1:]) if pr and pr[0].startswith("PARAMS ") and "error" not in pr[0] else {}
+    try:
+        pvals = [int(probed[k]) for k in ("left_shift", "pl_min_excl", "pl_max")]
+        page = int(probed["page"])
+    except (KeyError, ValueError):
+        raise ltv.BuildError("C02 harness --params probe failed: %r %s" % (pr, perr[-300:]))
+    pok, _, _ = ltv.run_lines(model, [], args=["--probed-ok"] + [str(max(0, v)) for v in pvals])
+    probed_ok = bool(pok) and pok[0] == "probed_ok=1" and min(pvals) >= 0
+    # the regex translator (gen/params_c02.py -> coq/C02/ParamsGen.v) is only a cross-check that may be absent
+    xcheck = {}
+    try:
+        txt = open(os.path.join(ltv.COQ, "C02", "ParamsGen.v")).read()
+        for name, val in (("c02_left_bytes_limit_shift", pvals[0]), ("c02_loader_piece_length_min_excl", pvals[1]),
+                          ("c02_loader_piece_length_max", pvals[2]), ("c02_flag_attr_padding_shift", int(probed.get("pad_shift", -1)))):
+            mm = re.search(name + r" : N := (\d+)%N\. *(\(\* NOT FOUND)?", txt)
+            if mm and not mm.group(2):
+                xcheck[name] = "agrees" if int(mm.group(1)) == val else "source text says %s, compiled code behaves as %d" % (mm.group(1), val)
+            else:
+                xcheck[name] = "regex did not match (ignored)"
+    except OSError:
+        pass
+    rep.cov.update(probed_constants=probed, probed_ok=probed_ok, source_text_crosscheck=xcheck)
+    if not probed_ok:
+        rep.violation("the constants probed from the implementation (%r) violate the side condition probed_ok of the theorems "
+                      "(left_bytes bound >= 2^60, largest loadable piece length < 2^32)" % probed,
+                      theorem="probed_ok (coq/C02/Model.v)", found_input=False)
     if replay:
         cases = [json.load(open(replay))["case"]]
         stats = {"replay": 1}
     else:
         cases, stats = G.gen(seed, tier)
-    mo = [canon_model(l) for l in ltv.run_sharded(model, cases, env={"LTV_PAGE": str(os.sysconf("SC_PAGESIZE"))})]
-    io = ltv.run_sharded(impl, cases)
+    mo = [canon_model(l) for l in ltv.run_sharded(model, cases, env={"LTV_PAGE": str(page)})]
+    io = ltv.run_sharded(impl, cases, timeout=900)   # per-case 30 s watchdog inside the harness (common/supervise.h)
     nontrivial = set()
     mism = 0
     samples = []
